@@ -428,7 +428,7 @@ Proof. intro H. induction l; simpl; intros; auto. Qed.
 Lemma p_inv_ep_poll c s desc : p_inv c true s -> p_inv c true (p_ep_poll c s desc).
 Proof.
   intro I. unfold p_ep_poll.
-  destruct (p_ep_ready c s (if desc then rev (seq 0 (length c)) else seq 0 (length c))) eqn:E; auto.
+  destruct (p_ep_batch c s (if desc then rev (seq 0 (length c)) else seq 0 (length c))) eqn:E; auto.
   assert (J : p_inv c true (fold_left (p_ep_check c) (p :: l) s)).
   { apply p_inv_fold; auto. intros. apply p_inv_ep_check; auto. }
   set (s1 := fold_left (p_ep_check c) (p :: l) s) in *. clearbody s1.
